@@ -200,6 +200,35 @@ func runVariants(prop string) variantResult {
 			r.failures = append(r.failures, filepath.Base(vf)+": unreadable")
 			continue
 		}
+		for _, cl := range spec.Clean {
+			if prop != "" && cl != prop {
+				continue
+			}
+			cmd := exec.Command(self, "check", cl, "--overlay", vf, "--no-evidence")
+			cmd.Env = os.Environ()
+			out, _ := cmd.CombinedOutput()
+			codeOf := cmd.ProcessState.ExitCode()
+			name := fmt.Sprintf("%s[%s must stay silent]", spec.Name, cl)
+			switch {
+			case codeOf == 3:
+				r.skipped++
+				r.lines = append(r.lines, name+": SKIPPED (stale context)")
+			case codeOf == 0:
+				r.ran++
+				r.lines = append(r.lines, name+": silent as expected")
+			default:
+				r.ran++
+				r.failures = append(r.failures, name)
+				first := ""
+				for _, ln := range strings.Split(string(out), "\n") {
+					if strings.HasPrefix(ln, "REPORT") {
+						first = ln
+						break
+					}
+				}
+				r.lines = append(r.lines, fmt.Sprintf("%s: FALSE ALARM (exit %d) %s", name, codeOf, first))
+			}
+		}
 		for _, ex := range spec.Expect {
 			if prop != "" && ex.Property != prop {
 				continue
